@@ -204,11 +204,18 @@ fn build_history(seed: u64, scenario: u64, steps: usize, datapack: u32, treepack
                         mutate(&mut r, &mut entries, step, &tp);
                     }
                     rewrite_dir(&src, &entries)?;
-                    if scenario == 3 && nsnap == 1 {
-                        // a second client whose index was loaded before the previous backup was written
-                        // re-uploads every blob: duplicates of (type, id) in two packs
-                        let stale = open_repo(Store::from_map(BTreeMap::new()), None, &key, &repo_opts());
-                        let _ = stale;
+                    if scenario == 3 && nsnap == 0 {
+                        // a second client whose index was loaded before this backup is written
+                        // re-uploads every blob afterwards: each (type, id) then lives in two packs
+                        let stale = open_repo(store.clone(), None, &key, &repo_opts())?.to_indexed_ids()?;
+                        let (rp, _s) = backup_dir(repo, &src, "src", None)?;
+                        repo = rp;
+                        let opts = rustic_core::BackupOptions::default().as_path(PathBuf::from("src"));
+                        let _ = stale.backup(&opts, &rustic_core::PathList::from_iter(Some(src.clone())), SnapshotFile::default())?;
+                        nsnap += 2;
+                        log.push("backup".into());
+                        log.push("stale-backup".into());
+                        continue;
                     }
                     let (rp, _s) = backup_dir(repo, &src, "src", None)?;
                     repo = rp;
@@ -467,7 +474,7 @@ fn run_check(store: Arc<Store>, key: &MasterKey) -> (String, Vec<String>) {
         for (lvl, e) in &res.0 {
             let d = format!("{e:?}");
             let name = d.split(|c: char| !c.is_alphanumeric()).next().unwrap_or("?").to_string();
-            let _ = kinds.insert(format!("{}{}", if *lvl == rustic_core::CheckErrorLevel::Error { "" } else { "w:" }, name));
+            let _ = kinds.insert(format!("{}{}", if format!("{lvl:?}") == "Error" { "" } else { "w:" }, name));
         }
         Ok((res.is_ok().is_ok(), kinds.into_iter().collect()))
     });
@@ -607,7 +614,18 @@ fn run_history(line: &str, out: &mut impl std::io::Write) -> Result<()> {
         }
     }
     if let Some(only) = &only {
-        cases.retain(|(tpe, id, f)| only.iter().any(|o| *o == format!("{}/{}/{}/{}", tpe.dirname(), &id.to_hex().as_str()[..8], f.kind(), f.detail())));
+        // file names are hashes of ciphertexts with fresh nonces, so a replay selects faults by class:
+        // `<type dir>/<kind>/<detail class>` (all files of the type) or the exact `<dir>/<id8>/<kind>/<detail>`
+        cases.retain(|(tpe, id, f)| {
+            let d = f.detail();
+            let cls = format!("{}/{}/{}", tpe.dirname(), f.kind(), d.split(['@', ':']).next().unwrap_or(""));
+            let exact = format!("{}/{}/{}/{}", tpe.dirname(), &id.to_hex().as_str()[..8], f.kind(), d);
+            only.iter().any(|o| *o == cls || *o == exact || {
+                // an exact name from another run: match its class
+                let p: Vec<&str> = o.split('/').collect();
+                p.len() == 4 && format!("{}/{}/{}", p[0], p[2], p[3].split(['@', ':']).next().unwrap_or("")) == cls
+            })
+        });
     } else if max_faults > 0 && cases.len() > max_faults {
         // deterministic stratified thinning: keep every (file class, kind, detail class) at least once
         let mut r = SplitMix(seed ^ 0xFA017);
@@ -656,8 +674,11 @@ fn run_history(line: &str, out: &mut impl std::io::Write) -> Result<()> {
                 bad.push(format!("{}:{r}", &s[..8]));
                 continue;
             }
-            let d = compare_dirs(&refdir.join(s), &scratch, CmpOpts::default())?;
+            // the top-level `src` directory is synthesised by as_path (its mtime is the restore time)
+            let (ra, rb) = (refdir.join(s).join("src"), scratch.join("src"));
+            let d = if ra.is_dir() && rb.is_dir() { compare_dirs(&ra, &rb, CmpOpts::default())? } else { vec!["top-level differs".to_string()] };
             if !d.is_empty() {
+                if std::env::var("C05_DEBUG").is_ok() { eprintln!("diff {:?}", d); }
                 bad.push(format!("{}:differs({})", &s[..8], d.len()));
             }
         }
